@@ -8,6 +8,11 @@ C18.c  no read of an indeterminate value: definite initialisation of every scala
 C18.d  shifts whose amount is constant or locally bounded stay below the promoted width; array extents are positive; every
        reinterpret_cast targets the payload storage; G2: where a member-array subscript is bounded by a dominating comparison
        with a compile-time constant, the bound implies index < extent.
+C18.e  [type] the byte storage behind every bit container has ceil(N/8) bytes for every N <= 255.
+C18.f  [summary] the task pool's slot indices stay inside its array (shares C10.a/c).
+C18.g  [bitprov] every bit-container operation addresses only storage the container owns (shares C20.e).
+C18.h  [summary] the state ids the library itself feeds into single-index bit operations -- the wrappers' own compile-time ids, the
+       invalid id of the root head included -- are below the capacity of the array they index.
 Not decided: absence of out-of-bounds accesses for all histories (subscripts without a local guard rest on data-structure
 invariants this family does not decide; they are counted in the evidence as 'no verdict').
 """
@@ -99,6 +104,77 @@ def subscript_rules(run, F, E):
     run.count('subscripts without a local guard (no verdict)', n_noverdict)
 
 
+def state_id_indices(run, F, E, rule='C18.h'):
+    """the ids the library itself feeds into single-index bit operations are in range: every wrapper S_<ID, ...> that hands its own
+    compile-time id to library code -- the root head's wrappers do so with the *invalid* id 255 -- is followed into that code (offset
+    domain evaluation of the callee on the concrete id, bit-array operations recorded as events): a get/set/clear(i) reached that way
+    must have i < CAPACITY of the array it is applied to. (Ids that come from the user -- succeed(id), a task's origin, and the
+    parameterless succeed()/fail() of a head -- are the asserted precondition `index < CAPACITY` of the bit array.)"""
+    from lint import symeval
+    from lint.symeval import Sym, ObjRef
+    seen = {}
+
+    def cap_of(cls):
+        rec = F.rec_by_name.get(cls) or {}
+        c = rec.get('consts', {}).get('CAPACITY')
+        if c is None:
+            raise AnalysisBroken('capacity of %s unknown' % cls)
+        return c
+
+    def this_env(g):
+        rec = F.rec_by_name.get(g.cls) or {}
+        env = {}
+        for f in rec.get('fields', []):
+            ty = f.get('ty') or ''
+            if 'BitArrayT<' in ty:
+                env[f['n']] = ObjRef({}, ['_storage'], f['n'])
+            else:
+                env[f['n']] = Sym(f['n'])
+        return env
+    for fn in F.find('S_'):
+        if fn.body is None:
+            continue
+        for e in ir.all_exprs(fn):
+            if e['k'] != 'call' or e.get('fn') is None:
+                continue
+            g = F.fn(e['fn'])
+            if g is None or g.tkey in ('ffsm2::detail::LoggerInterfaceT',) or g.tkey == 'ffsm2::detail::S_':
+                continue
+            idx = [(i, ir.strip(a)) for i, a in enumerate(e.get('args', []))]
+            idx = [(i, x) for i, x in idx if x['k'] == 'c' and x.get('n') == 'STATE_ID']
+            if not idx:
+                continue
+            v = idx[0][1].get('v')
+            key = (g.id, idx[0][0], v)
+            if key in seen:
+                continue
+            seen[key] = True
+            if g.tkey == 'ffsm2::detail::BitArrayT':
+                ok = len(g.params) == 1 and v < cap_of(g.cls)
+                run.ob(rule, 'S_<%d>::%s applies %s(%d) to an array of %d bits' % (v, fn.m, g.m, v, cap_of(g.cls)), ok, where=e.get('l') or fn.pat,
+                       key='S_::%s addresses a bit outside the array with its own state id' % fn.m)
+                continue
+            log = []
+
+            def prim(h, obj, args, log=log):
+                if h.tkey == 'ffsm2::detail::BitArrayT':
+                    log.append((h.cls, h.m, list(args)))
+                    return True
+                return False
+            ev = symeval.Eval(F, this_env(g), [])
+            ev.primitive = prim
+            args = [v if i == idx[0][0] else Sym('a%d' % i) for i in range(len(g.params))]
+            try:
+                ev.run(g, args)
+            except symeval.Refuse as ex:
+                raise AnalysisBroken('%s (called by S_::%s with its state id) is outside the offset-domain fragment: %s' % (g.short, fn.m, ex))
+            bad = [(c, m, a) for (c, m, a) in log if len(a) == 1 and (not isinstance(a[0], int) or a[0] >= cap_of(c))]
+            single = [x for x in log if len(x[2]) == 1]
+            run.ob(rule, '%s(%d) as called by S_<%d>::%s: %d single-index bit operation(s), all inside their array' % (g.short, v, v, fn.m, len(single)),
+                   not bad, where=g.pat, detail=[(c.split('::')[-1], m, a) for (c, m, a) in bad][:3] or None,
+                   key='%s addresses a bit outside the array when a wrapper hands it %s' % (g.short, 'the invalid id (root head)' if v == 255 else 'its state id'))
+
+
 def run(run):
     jobs = [(w, c, v) for w in ('w_core', 'w_pay', 'w_shared') for c in (facts.configs(run.tier) if w != 'w_shared' else ['PS'])
             for v in facts.variants(run.tier)]
@@ -118,6 +194,8 @@ def run(run):
         run.guard('shift rules', shift_rules, run, F, E)
         run.guard('extent rules', extent_rules, run, F)
         run.guard('subscript rules', subscript_rules, run, F, E)
+        if w == 'w_core' and facts.cfg_has(c, 'P'):
+            run.guard('state id indices', state_id_indices, run, F, E)
         facts.drop(F)
         cfgmod.clear_cache()
     for w, c in (('w_core', 'PSHL'), ('w_pay', 'P'), ('w_shared', 'PS'), ('w_core', 'PSHVRDT')):
@@ -150,6 +228,7 @@ def run(run):
         facts.drop(F_)
     run.relabel('C20.e', 'C18.g')
     run.floor('C18.g', 1000)
+    run.floor('C18.h', 10)
     run.explanation = (
         'Allocation-freedom from the AST (every new-expression is the reserved placement form into storage/_items, no delete, '
         'externals limited to memset / placement operator new / type_index) cross-checked on the undefined symbols of the '
